@@ -1934,16 +1934,33 @@ def _check_parser_validation(ctx, res: RuleResult):
 # --------------------------------------------------------------------------- R-INDEXSPACE / R-GRAPHBUILD
 
 
-def _index_offsets(fi: FuncInfo):
-    """[(node, token position k or None, offset c)] for expressions  int(<row>[k]) ± c  and  <name> ± c inside comprehensions over parsed numbers"""
+def _index_offsets(fi: FuncInfo, ctx=None):
+    """[(node, token position k or None, offset c)] for expressions  int(<row>[k]) ± c  (the conversion may sit in a helper
+    `h(row, k, ..)` that returns int(row[k]))  and  <name> ± c inside comprehensions over parsed numbers"""
     out = []
+
+    def token_position(l):
+        if isinstance(l, ast.Call) and isinstance(l.func, ast.Name) and l.func.id == "int" and l.args and isinstance(l.args[0], ast.Subscript) \
+                and isinstance(l.args[0].slice, ast.Constant):
+            return l.args[0].slice.value
+        if ctx is not None and isinstance(l, ast.Call):
+            cs = ctx.cg.resolve_call(fi, l, ctx.cg.local_types(fi), set(params_of(fi.node)))
+            if cs.kind == "tucan":
+                h = cs.target
+                hp = params_of(h.node)
+                for r in own_walk(h.node):
+                    if isinstance(r, ast.Return) and isinstance(r.value, ast.Call) and isinstance(r.value.func, ast.Name) and r.value.func.id == "int" and r.value.args \
+                            and isinstance(r.value.args[0], ast.Subscript) and isinstance(r.value.args[0].slice, ast.Name) and r.value.args[0].slice.id in hp:
+                        j = hp.index(r.value.args[0].slice.id)
+                        if j < len(l.args) and isinstance(l.args[j], ast.Constant) and isinstance(l.args[j].value, int):
+                            return l.args[j].value
+        return None
     for n in own_walk(fi.node):
         if isinstance(n, ast.BinOp) and isinstance(n.op, (ast.Add, ast.Sub)) and isinstance(n.right, ast.Constant) and isinstance(n.right.value, int):
             c = n.right.value if isinstance(n.op, ast.Add) else -n.right.value
-            l = n.left
-            if isinstance(l, ast.Call) and isinstance(l.func, ast.Name) and l.func.id == "int" and l.args and isinstance(l.args[0], ast.Subscript) \
-                    and isinstance(l.args[0].slice, ast.Constant):
-                out.append((n, l.args[0].slice.value, c))
+            k = token_position(n.left)
+            if k is not None:
+                out.append((n, k, c))
     return out
 
 
@@ -1977,7 +1994,7 @@ def r_indexspace(ctx) -> RuleResult:
     clo = [ctx.cg.funcs[q] for q in ctx.cg.closure([fi.fq])]
     offs = []
     for f in clo:
-        for n, k, c in _index_offsets(f):
+        for n, k, c in _index_offsets(f, ctx):
             if k in (2, 4, 5):
                 offs.append((f, n, k, c))
         # star-atom endpoints: (start, end - 1) in a comprehension
@@ -1991,6 +2008,8 @@ def r_indexspace(ctx) -> RuleResult:
                     offs.append((f, e2, "ENDPTS", 0))
     cs = {c for _, _, _, c in offs}
     ok = len(cs) == 1 and len(offs) >= 3
+    if len(cs) == 1 and not {2, 4, 5} <= {k for _, _, k, _ in offs}:
+        raise AnalysisError(f"R-INDEXSPACE: the conversions of the index fields (tokens 2, 4, 5) are not all found in the V3000 reader (seen: {sorted({str(k) for _, _, k, _ in offs})})")
     res.inst(fi.fq, f"index fields {[(k, c) for _, _, k, c in offs]} carry one common offset", "ok" if ok else "fail")
     if not ok and offs:
         f, n, k, c = offs[0]
